@@ -292,6 +292,7 @@ def validate_explorations(ctx, progs, results):
             traces.append((key[0], t))
     outc = []
     rej = K.validate_traces(ctx, progs, traces, tag="mcx", outcomes=outc, max_rej=8)
+    ctx.cov["validation_cut_short"] = ctx.cov.get("validation_cut_short", False) or len(rej) >= 8
     for x in rej:
         x["key"] = keys[x["index"]]
         x["trace"] = traces[x["index"]][1]
